@@ -49,7 +49,9 @@ manifest = {
     ],
     "notes": "Deterministic simulation with fault injection; see DESIGN.md. Exit status of every "
              "check: 0 held on everything explored, 1 + VIOLATION line, 2 harness error (never "
-             "counted as held). `./check selftest` proves determinism of the simulator.",
+             "counted as held). `./check selftest` proves determinism of the simulator. "
+             "Configuration dimension decided by VERIF_SEED: seed % 5 == 4 compiles the package "
+             "as `python -O` would (VERIF_PYOPT overrides; stored in replay files).",
 }
 with open(os.path.join(os.path.dirname(__file__), "..", "MANIFEST.json"), "w") as handle:
     json.dump(manifest, handle, indent=1)
